@@ -4,7 +4,8 @@
     Purity (argv / contexts never modified, repeated parse same answer) holds
     by construction in a functional model, so it is NOT claimed here: it is a
     snapshot test in harness/props/c07.py ([extra_checks]). *)
-From InvokeVerif Require Import Corr.C07Corr Proofs.C07_fuel Proofs.C07_errors Proofs.C07_witness.
+From InvokeVerif Require Import Corr.C07Corr Proofs.C07_fuel Proofs.C07_errors Proofs.C07_witness
+     Proofs.C07_positional.
 
 (** Termination (full): the token loop -- which re-inserts pieces of split
     tokens into the list it iterates over -- always ends within [body_fuel]
@@ -49,6 +50,15 @@ Proof. exact refuted_int. Qed.
 Theorem C07_only_parse_errors_refuted_no_initial :
   exists cs argv, parser_ok cs = true /\ parser_parse cs None false argv = Err EAttr.
 Proof. exact refuted_no_initial. Qed.
+
+(** "Missing positional arguments are an error" (full, no guard): whenever a
+    parse succeeds -- any parser, any initial context or none, any command line,
+    with or without ignore_unknown -- no returned context has a positional
+    argument left without a value (clause B1 of [spec_ok], at model level). *)
+Theorem C07_missing_positional_errors : forall cs init ign argv r,
+  parser_parse cs init ign argv = Ok r ->
+  forallb (fun c => negb (has_missing c)) (pr_ctxs r) = true.
+Proof. exact missing_positional_errors. Qed.
 
 (** "A value-requiring flag left without a value is an error" -- FALSE for
     list-kind flags (F-C07c) and for arguments that already have a value
